@@ -67,16 +67,16 @@ def runs(tier: str, kinds=None) -> list[dict]:
         PrbT1s=('-1/2', '1') if q else ('-1', '-1/2', '0', '1'),
         PrbDiffs=('0', '1/2', '2') if q else ('0', '1/2', '1', '2'))
     add('nl', ['nl'], 6, LabelSeqs=[L2, L3, L4],
-        AVecs=[(1, 2), (3, 4), (2, 2), (1, 2, 2), (3, 4, 1), (2, 3, 1), (1, 2, 2, 4), (3, 4, 2, 1)] if q else
+        AVecs=[(1, 2), (3, 4), (1, 2, 2), (3, 4, 1), (1, 2, 2, 4)] if q else
         _full(2) + [(1, 2, 2), (3, 4, 1), (2, 3, 1), (4, 4, 3), (1, 1, 1), (2, 2, 1), (4, 1, 4), (3, 3, 4), (2, 4, 4), (1, 3, 2)]
         + [(1, 2, 2, 4), (3, 4, 2, 1), (2, 1, 3, 3), (4, 4, 4, 1), (1, 1, 1, 1), (2, 4, 4, 3), (4, 3, 1, 2), (2, 2, 1, 4)])
     add('cnl', ['cnl'], 6, LabelSeqs=[L2, L3],
         AVecs=[(1, 2), (3, 4), (1, 2, 2), (3, 4, 1)] if q else
         _full(2) + [(1, 2, 2), (3, 4, 1), (2, 3, 1), (4, 4, 3), (1, 1, 1), (2, 2, 1), (4, 1, 4), (1, 3, 2)])
     add('cnl4', ['cnl'], 6, LabelSeqs=[L4],
-        CnlMuPairs=[('1', '1'), ('2', '1'), ('1', '2'), ('2', '3/2'), ('3/2', '1'), ('1', '3/2')] if q else ALL_PAIRS,
+        CnlMuPairs=[('1', '1'), ('2', '1'), ('1', '2'), ('2', '3/2')] if q else ALL_PAIRS,
         TopMus=('1',) if q else ('1', '2'),
-        AVecs=[(1, 2, 2, 4)] if q else [(1, 2, 2, 4), (3, 4, 2, 1), (2, 1, 3, 3)])
+        AVecs=[(1, 2, 2, 4)] if q else [(1, 2, 2, 4), (3, 4, 2, 1)])
     if kinds is not None:
         out = [r for r in out if set(r['kinds']) & set(kinds)]
     return out
@@ -319,7 +319,7 @@ def cnl_nests(r, syntax: str, zeros: bool = False, param=float):
                              for k, (mu, al) in enumerate(spec)))
 
 
-def variants(r, V, av, what: str = 'c05', tuple_param=float) -> list:
+def variants(r, V, av, what: str = 'c05', tuple_param=float, scale=float) -> list:
     """(name, family, is_log, builder(choice) -> expression).  `family` pairs a probability function with
     its logarithm; within one structure all variants of a kind must give the same probabilities."""
     import biogeme.models as M
@@ -335,13 +335,14 @@ def variants(r, V, av, what: str = 'c05', tuple_param=float) -> list:
         out.append(('mev', 'mev', False, lambda ch: M.mev(V, lg, av, ch)))
         out.append(('logmev', 'mev', True, lambda ch: M.logmev(V, lg, av, ch)))
     elif kind == 'nl':
-        mu = float(fr(r['mu']))
+        mu1 = fr(r['mu']) == 1
+        mu = scale(float(fr(r['mu'])))
         k = itertools.count()
         beta = lambda x: Beta(f'mu_nest_{next(k)}', float(x), None, None, 0)  # noqa
         # C05 looks at values: one way of writing the nests per function (C06 compares the ways with each other)
-        styles = [('objects', 'objects', float, ('nested', 'lognested') if mu == 1.0 else ('nested_mev_mu', 'lognested_mev_mu')),
-                  ('tuple', 'tuple', float, ('nested_mev_mu', 'lognested_mev_mu') if mu == 1.0 else ()),
-                  ('objects+Beta', 'objects', beta, ('nested', 'lognested_mev_mu') if mu == 1.0 else ('nested_mev_mu',))]
+        styles = [('objects', 'objects', float, ('nested', 'lognested') if mu1 else ('nested_mev_mu', 'lognested_mev_mu')),
+                  ('tuple', 'tuple', float, ('nested_mev_mu', 'lognested_mev_mu') if mu1 else ()),
+                  ('objects+Beta', 'objects', beta, ('nested', 'lognested_mev_mu') if mu1 else ('nested_mev_mu',))]
         if what == 'c06':
             styles = [('objects', 'objects', float, None), ('tuple', 'tuple', tuple_param, None)]
         for sname, syn, param, sel in styles:
@@ -350,17 +351,18 @@ def variants(r, V, av, what: str = 'c05', tuple_param=float) -> list:
                     return lambda ch: fn(V, av, nl_nests(r, syn, param), ch, mu)
                 return lambda ch: fn(V, av, nl_nests(r, syn, param), ch)
             cand = []
-            if mu == 1.0:
+            if mu1:
                 cand.append((f'nested[{sname}]', f'nested[{sname}]', False, mk(M.nested)))
                 cand.append((f'lognested[{sname}]', f'nested[{sname}]', True, mk(M.lognested)))
             cand.append((f'nested_mev_mu[{sname}]', f'nested_mev_mu[{sname}]', False, mk(M.nested_mev_mu, scaled=True)))
             cand.append((f'lognested_mev_mu[{sname}]', f'nested_mev_mu[{sname}]', True, mk(M.lognested_mev_mu, scaled=True)))
             out += [c for c in cand if sel is None or base_name(c[0]) in sel]
     elif kind == 'cnl':
-        mu = float(fr(r['mu']))
-        styles = [('objects+zeros', 'objects', True, ('cnl', 'logcnl') if mu == 1.0 else ('cnlmu', 'logcnlmu')),
-                  ('objects', 'objects', False, ('cnlmu', 'logcnlmu') if mu == 1.0 else ()),
-                  ('tuple', 'tuple', False, ('cnl',) if mu == 1.0 else ('cnlmu',))]
+        mu1 = fr(r['mu']) == 1
+        mu = scale(float(fr(r['mu'])))
+        styles = [('objects+zeros', 'objects', True, ('cnl', 'logcnl') if mu1 else ('cnlmu', 'logcnlmu')),
+                  ('objects', 'objects', False, ('cnlmu', 'logcnlmu') if mu1 else ()),
+                  ('tuple', 'tuple', False, ('cnl',) if mu1 else ('cnlmu',))]
         if what == 'c06':
             styles = [('objects', 'objects', False, None), ('objects+zeros', 'objects', True, None), ('tuple', 'tuple', False, None)]
         for sname, syn, zeros, sel in styles:
@@ -369,7 +371,7 @@ def variants(r, V, av, what: str = 'c05', tuple_param=float) -> list:
                     return lambda ch: fn(V, av, cnl_nests(r, syn, zeros), ch, mu)
                 return lambda ch: fn(V, av, cnl_nests(r, syn, zeros), ch)
             cand = []
-            if mu == 1.0:
+            if mu1:
                 cand.append((f'cnl[{sname}]', f'cnl[{sname}]', False, mk(M.cnl)))
                 cand.append((f'logcnl[{sname}]', f'cnl[{sname}]', True, mk(M.logcnl)))
             cand.append((f'cnlmu[{sname}]', f'cnlmu[{sname}]', False, mk(M.cnlmu, scaled=True)))
@@ -567,8 +569,9 @@ def c05_group(group, corrupt=None, only=None) -> dict:
 
 
 def c05_numeric(r) -> dict:
-    """One case with plain numbers: V_i = log(Numeric(a_i)), availability Numeric(0/1), no database."""
-    from biogeme.expressions import Numeric, log
+    """One case with plain numbers: V_i = log(Numeric(a_i)), availability Numeric(0/1), chosen alternative
+    Numeric(label), no database; the scale of nested_mev_mu / cnlmu is a free parameter."""
+    from biogeme.expressions import Beta, Numeric, log
 
     col = Collector()
     labels = r['labels']
@@ -577,7 +580,7 @@ def c05_numeric(r) -> dict:
     av = {lab: Numeric(int(x)) for lab, x in zip(labels, r['av'])}
     want = vals(r['p'], r.get('refs'))
     tol = TOL_EXACT if r['exact'] else TOL_TERM
-    for vname, fam, is_log, build in variants(r, V, av):
+    for vname, fam, is_log, build in variants(r, V, av, what='c06', scale=lambda x: Beta('mu_scale', x, None, None, 0)):
         if '[' in vname and not vname.endswith('[objects]'):
             continue
         fn = base_name(vname)
@@ -662,7 +665,7 @@ def buggy_generating(util, availability, nests):
     return bioMultSum(terms_)
 
 
-def c06_group(group, generating=None, corrupt_dg=None, tuple_param=float, parts=('reductions', 'generating')) -> dict:
+def c06_group(group, generating=None, corrupt_dg=None, tuple_param=float, nl_of=None, parts=('reductions', 'generating')) -> dict:
     """One structure of a nested / cross-nested logit:
     reductions (code against code, and against the specification's reduced model), scale one, tuple
     syntax = nest objects; for the nested logit the generating function, its gradient (engine) and the
@@ -727,7 +730,7 @@ def c06_group(group, generating=None, corrupt_dg=None, tuple_param=float, parts=
             same('lognested:all-nest-parameters-one', 'reduce-logit', 'lognested', got['lognested[objects]'], 'loglogit', llg, tol_term)
             same('nested_mev_mu:all-nest-parameters-one', 'reduce-logit', 'nested_mev_mu', got['nested_mev_mu[objects]'], 'logit', lg, tol_term)
         if red == 'nl':
-            nests = nl_nests(r0, 'objects')
+            nests = (nl_of or (lambda r: nl_nests(r, 'objects')))(r0)
             if mu == 1.0:
                 nv = ev_all(lambda ch: M.nested(V, av, nests, ch), db)
                 same('cnl:one-nest-per-alternative', 'reduce-nl', 'cnl', got['cnl[objects]'], 'nested', nv, tol_term)
@@ -848,13 +851,17 @@ def c06_group(group, generating=None, corrupt_dg=None, tuple_param=float, parts=
                     sample.update(G=dict(case=describe(r), G_expected=terms.show(expand(r['g'], refs)), G_observed=float(og.functions[row]),
                                          dG_expected=want_dg, gradient_observed=[grad.get(f'y_{lab}') for lab in labels],
                                          exp_of_published_terms=[math.exp(float(t1[lab][row])) for lab in labels]))
-    return col.result(cases=len(group), sample=sample)
+    return col.result(cases=len(group), sample=sample, inexact=sum(1 for r in group if not r['exact']))
 
 
 # ------------------------------------------------------------------------------------ reporting
 def report(chk, label: str, items, results, samples: dict | None = None) -> dict:
     """Replay results -> counts / violations of the check.  -> statistics of this batch."""
     stat = dict(items=len(items), cases=0, comparisons=0, engine_evaluations=0, mismatching_comparisons={}, inexact_cases=0)
+    if samples is not None and items:   # a sample from the middle of the enumeration (the first structures are the degenerate ones)
+        st, v = results[(2 * len(items)) // 3]
+        if st == 'ok' and v.get('sample'):
+            samples[label] = v['sample']
     for item, (st, v) in zip(items, results):
         first = item[0] if isinstance(item, list) else item
         if st != 'ok':
